@@ -1,6 +1,7 @@
 package main
 
 import (
+	"go/token"
 	"fmt"
 	"go/ast"
 	"go/types"
@@ -471,6 +472,18 @@ func reachFromStart(start, c, to, avoid ssa.Instruction) bool {
 
 // ---------------------------------------------------------------- reset completeness
 
+// resetInitial: fields whose reset value is a protocol initial value rather
+// than the zero value ("*": an implementation default the properties do not fix).
+var resetInitial = map[string]string{
+	"Settings.tableSize":         "4096",  // RFC 7540 s6.5.2 SETTINGS_HEADER_TABLE_SIZE
+	"Settings.windowSize":        "65535", // SETTINGS_INITIAL_WINDOW_SIZE
+	"Settings.frameSize":         "16384", // SETTINGS_MAX_FRAME_SIZE
+	"Settings.maxStreams":        "*",     // library default for an unconfigured endpoint
+	"FrameHeader.maxLen":         "16384", // s4.2: frames up to 2^14 octets until told otherwise
+	"HPACK.maxTableSize":         "4096",  // RFC 7541 s4.2 via SETTINGS_HEADER_TABLE_SIZE
+	"HPACK.maxTableSizeSettings": "4096",
+}
+
 func ruleResetCompleteness(p *Prog, r *Out) {
 	type spec struct {
 		typ   string
@@ -509,6 +522,7 @@ func ruleResetCompleteness(p *Prog, r *Out) {
 			continue
 		}
 		touched := map[string]bool{}
+		resetVals := map[string][]ast.Expr{}
 		found := 0
 		for _, fnn := range s.funcs {
 			fd := p.decl(fnn)
@@ -520,10 +534,13 @@ func ruleResetCompleteness(p *Prog, r *Out) {
 			ast.Inspect(fd.Body, func(n ast.Node) bool {
 				switch x := n.(type) {
 				case *ast.AssignStmt:
-					for _, l := range x.Lhs {
+					for i, l := range x.Lhs {
 						if sel, ok := ast.Unparen(l).(*ast.SelectorExpr); ok {
 							if o, f, ok := p.fieldOf(sel); ok && o == s.typ {
 								touched[f] = true
+								if len(x.Rhs) == len(x.Lhs) && x.Tok == token.ASSIGN {
+									resetVals[f] = append(resetVals[f], x.Rhs[i])
+								}
 							}
 						}
 					}
@@ -569,6 +586,26 @@ func ruleResetCompleteness(p *Prog, r *Out) {
 			}
 			r.check(touched[f], key, p.pos(st.Field(i).Pos()), "reset on acquire",
 				fmt.Sprintf("field %s is not (re)initialised by %s: a recycled %s carries the previous owner's %s into its next use", key, strings.Join(s.funcs, "/"), s.typ, f))
+			// a constant written by the reset is the field's zero value, or the protocol's initial value
+			for _, rhs := range resetVals[f] {
+				cv := p.constOf(rhs)
+				if cv == nil {
+					continue
+				}
+				want, named := resetInitial[key]
+				got := cv.ExactString()
+				if !named {
+					want = "0"
+					if got == "false" || got == "\"\"" {
+						got = "0"
+					}
+				}
+				if want == "*" {
+					continue
+				}
+				r.check(got == want, key+" reset value", p.pos(rhs.Pos()), "reset to "+want,
+					fmt.Sprintf("%s resets %s to %s; a fresh %s must start with %s there (zero value, or the RFC 7540/7541 initial value): every object taken from the pool starts from the wrong state", strings.Join(s.funcs, "/"), key, cv.ExactString(), s.typ, want))
+			}
 		}
 	}
 }
